@@ -173,7 +173,9 @@ def parse_graphic_sequence(
                 current_set.append(items[idx])
             left_in_set -= 1
             if left_in_set <= 0:
-                output.append(AnsiSetting(current_set))
+                setting = AnsiSetting(current_set)
+                if add_erroneous or len(current_set) == 1 or setting.parsable:
+                    output.append(setting)
                 current_set = []
         elif add_erroneous:
             output.append(AnsiSetting(value))
